@@ -63,6 +63,11 @@ int main(int argc, char** argv) {
             std::string st; int w = 0;
             if (P[t].op == "get") { std::pair<char*, std::size_t> out{nullptr, 0}; status rc = get<char>(&ti, k, out); st = rc == status::OK ? "OK" : "NOT_EXIST"; w = rc == status::OK ? (out.first ? *(int*)out.first : 0) : 0; }
             else if (P[t].op == "put") { int id = 11 + (int)t; int buf[2] = {id, id}; status rc = put<char>(tok[t], &ti, k, (char*)buf, false, 8); st = rc == status::OK ? "OK" : "OTHER"; }
+            else if (P[t].op == "scan") { std::vector<std::tuple<std::string, char*, std::size_t>> tl; std::vector<std::pair<node_version64_body, node_version64*>> nv;
+                scan<char>(&ti, "", scan_endpoint::INF, "", scan_endpoint::INF, tl, &nv, 0, false);
+                auto mk = [](const std::string& fk) { return fk.size() < 8 ? (int)(unsigned char)fk[0] : fk.size() == 8 ? 100 : 100 + (int)(unsigned char)fk[8]; };
+                std::string ws = "["; for (std::size_t i = 0; i < tl.size(); i++) { if (i) ws += ","; char* p = std::get<1>(tl[i]); ws += "[" + std::to_string(mk(std::get<0>(tl[i]))) + "," + std::to_string(p ? *(int*)p : 0) + "]"; } ws += "]";
+                M.push_back({vs::S.log.size(), "{\"e\":\"ret\",\"t\":" + T + ",\"st\":\"OK\",\"w\":" + ws + ",\"nvn\":" + std::to_string(nv.size()) + "}"}); return; }
             else { status rc = remove(tok[t], &ti, k); st = rc == status::OK ? "OK" : rc == status::OK_NOT_FOUND ? "NOT_FOUND" : "OTHER"; }
             M.push_back({vs::S.log.size(), "{\"e\":\"ret\",\"t\":" + T + ",\"st\":\"" + st + "\",\"w\":" + std::to_string(w) + "}"});
         });
